@@ -94,10 +94,16 @@ def run(ctx):
         stores = [s for s in ff.stores if s[2] == f"self.{attr}"]
         if not stores:
             raise AnalysisError(f"Plate.__init__: store to self.{attr} not found")
-        custom = [s for s in stores if isinstance(strip_refs(s[3]), Param) and strip_refs(s[3]).name == pname]
+        # the stored value may be a join of the default and the custom labels: each alternative with the state of the
+        # place where it was chosen (its branch facts)
+        custom = []
+        for st_ in stores:
+            for alt, state in _alternatives_with_state(ff, st_[3], st_[4]):
+                if isinstance(strip_refs(alt), Param) and strip_refs(alt).name == pname:
+                    custom.append((st_[0], state))
         if not custom:
             raise AnalysisError(f"Plate.__init__: custom {axis} labels are no longer stored as given")
-        stmt, target, key, value, before, rt = custom[0]
+        stmt, before = custom[0]
 
         def nonempty(c, p=pname):
             # len(p) == 0 excluded / len(p) >= 1
@@ -146,7 +152,12 @@ def run(ctx):
         ctx.ob('C13.R4', pi, stmt.lineno, f"custom {axis} labels must not be blank", blank_gate,
                why=f"a blank {axis} label is accepted", key=f"{axis} labels blank gate")
     # default column labels are the decimal strings of 1..n
-    dstores = [s for s in ff.stores if s[2] == 'self.column_names' and isinstance(strip_refs(s[3]), ast.ListComp)]
+    dstores = []
+    for s_ in ff.stores:
+        if s_[2] == 'self.column_names':
+            for alt, state in _alternatives_with_state(ff, s_[3], s_[4]):
+                if isinstance(strip_refs(alt), ast.ListComp):
+                    dstores.append((s_[0], None, None, alt))
     ok, fact = False, 'no comprehension building the default column labels'
     if dstores:
         lc = strip_refs(dstores[0][3])
@@ -239,6 +250,26 @@ def _label_offset(elt):
             isinstance(const_value(e.right), int):
         return -const_value(e.right)
     return None
+
+
+def _alternatives_with_state(ff, value, state, depth=0):
+    """[(alternative, state where it was chosen)] of a value that may be a join of definitions."""
+    from ..flow import Ref, Phi
+    if depth > 8:
+        return [(value, state)]
+    if isinstance(value, Ref) and isinstance(value.value, (Ref, Phi)):
+        st = ff.pre.get(id(value.stmt), state) if value.stmt is not None else state
+        return _alternatives_with_state(ff, value.value, st, depth + 1)
+    if isinstance(value, Phi):
+        out = []
+        for o in value.options:
+            st = ff.pre.get(id(getattr(o, 'stmt', None)), state) if isinstance(o, Ref) else state
+            out.extend(_alternatives_with_state(ff, o, st, depth + 1))
+        return out
+    if isinstance(value, Ref):
+        st = ff.pre.get(id(value.stmt), state) if value.stmt is not None else state
+        return [(value, st)]
+    return [(value, state)]
 
 
 def subslice_composition(ctx, rule):
